@@ -9,7 +9,7 @@ from __future__ import annotations
 import itertools
 from fractions import Fraction as F
 
-from mc import builder, starts
+from mc import builder, fileio, starts
 from refs import bms as rb
 
 ID = "C05"
@@ -328,6 +328,8 @@ def judge(m, layout, den, tempo, ongrid, bpm_at, site, case, ctx):
         ctx.check("write.repeatable", again == data, site=dict(route=site.get("route")), case=case, observed=again[-300:].decode("latin1"), expected=data[-300:].decode("latin1"))
     except Exception as e:
         ctx.check("write.repeatable", False, site=dict(route=site.get("route"), exc=type(e).__name__), case=case, observed=f"{type(e).__name__}: {e}"[:300], expected="the same bytes")
+    if not site.get("devs") or len(site.get("devs")) <= 1 or "layout" in site.get("devs"):
+        fileio.check_file_entry_points(ctx, "bms", None, m, None, dict(route="file-entry", layout=layout), case, written=data, write_kw=dict(note_channel_config=rb.lib_layout(layout)))
     try:
         text = data.decode("shift_jis")
     except Exception as e:
